@@ -65,6 +65,15 @@ def check(ctx):
         rollup(ctx, o, ps, attrs=('end',))
     ctx.guarded(o, summary_end)
 
+    o = ctx.ob('summary_end_is_derived_not_recorded', 'R5',
+               "the end of a summary that bounds its successors is the one rolled up from its leaves: dates recorded on summary tasks "
+               "are reset for every task of the clone before the pass - shared clearing rule with C07", floor=1)
+
+    def cleared_(o):
+        from .c07 import cleared
+        cleared(ctx, o, S)
+    ctx.guarded(o, cleared_)
+
     o = ctx.ob('search_never_moves_back', 'R8',
                "the availability search starts at the resource's nearest availability on/after the requested date and steps "
                "exactly +1 day; the result is midnight(day) + fraction")
